@@ -4,6 +4,7 @@ import AdfObdd.PreGround2
 import AdfObdd.Stable
 import AdfObdd.MemoTransparent
 import AdfObdd.PersistAnswers
+import AdfObdd.JsonPersist
 /-! # C14 — persistence round trips preserve handles and answers
 
 `Persist.PBdd` / `PAdf` are `Bdd` / `Adf` with the serde-skipped bookkeeping explicit.  Two round
@@ -11,8 +12,9 @@ trips: (1) `export → import → fix_import` (serde derives + `vectorize` + `Bd
 (2) the node-list rebuild `Bdd::from(Vec<BddNode>)` inside `Adf::from((ordering, bdd, ac))` as the
 web service does through its string DTO.  The original may be at any point of its life: the only
 hypothesis is that its store is well formed (`WF`, preserved by every operation: C06/C07), memo
-tables arbitrary.  `serde_json`'s text layer is not modelled (the export passes the node vector
-through); the DTO's decimal strings are: `Persist.decimalCodec` (`Nat.repr`/`String.toNat?`) is a
+tables arbitrary.  `exportB`/`importB` pass the node vector through; the JSON TEXT in between
+(`serde_json::to_string` / `from_str`) is modelled in `Json` and composed with them in the last
+section ("from the JSON TEXT").  The DTO's decimal strings: `Persist.decimalCodec` (`Nat.repr`/`String.toNat?`) is a
 concrete `Codec`, see `simplified_roundtrip_decimal`. -/
 namespace C14
 open Persist Std
@@ -284,8 +286,9 @@ theorem grounded_after_rebuild (a : PAdf) (w : WF a.bdd.st) (hv : ∀ t ∈ a.ac
 
 /-! ### the text level: a concrete codec
 
-`serde_json` itself is not modelled: `exportB`/`importB` pass the node vector through and only the
-`vectorize` step of the unique table is explicit (`import_nodes` is `rfl` for that reason). For the
+`exportB`/`importB` pass the node vector through and only the `vectorize` step of the unique table
+is explicit (`import_nodes` is `rfl` for that reason); the text serde_json writes in between is the
+subject of the section "from the JSON TEXT" below. For the
 web service's DTO, whose fields are decimal strings, the codec is concrete:
 `Persist.decimalCodec` = (`Nat.repr`, `String.toNat?`) — what `usize::to_string` and
 `str::parse::<usize>` compute on the decimal digits — with the standard library's round-trip
@@ -341,6 +344,163 @@ example :
    let ⟨r, h, _, hac, _⟩ := simplified_roundtrip_decimal x0Adf x0Adf_ok.1
    ⟨r, h, hac⟩⟩
 
+/-! ## from the JSON TEXT (`serde_json::to_string` / `to_writer`, `from_str`; CLI `--export` / `--import`)
+
+`Json` models the text serde_json writes for an `Adf` — field order, `[[node,handle],…]` for the
+vectorised unique table, string escaping by serde_json's `ESCAPE` table (`\"`, `\\`, `\b \f \n \r \t`,
+other control characters `\u00XX`, everything else — DEL and all non-ASCII included — passed
+through), numbers in decimal — and a reader for it (state-machine lexer skipping ` \n\t\r`, all JSON
+escapes, no leading zeros, numbers below 2^64; then JSON values `Json.J` and serde's derived
+visitors `Json.dAdf`: struct members in any order, unknown members skipped, a repeated or missing
+member rejected, structs also as arrays of their fields). The iteration order of the two hash maps (`mapping`, `cache`) is a parameter of the
+printer: any permutation `ml`, `cl` of the map's entries; so is the whitespace `w` between tokens
+(`Json.noWs` is what serde_json writes). The hypothesis `Json.FitsA` says that every number written
+is a `usize`; `Json.fitsA_of_wf` derives it from `WF`, `nodes.size ≤ 2^64`, valid root handles and
+`usize` values in `mapping`. Not modelled (and never produced by `to_string`): surrogate-pair
+escapes, and `true`/`false`/`null`/negative/fractional numbers inside UNKNOWN members (the model's
+reader rejects such texts, serde skips the member). -/
+
+/-- **decimal printer / reader on all naturals**: the digits of `n` are read back as `n` (no
+bound in the digit reader; the token is emitted iff `n < 2^64`, as `usize` parsing demands) -/
+theorem decimal_roundtrip (n : Nat) :
+    Json.lex (Json.digits n) =
+      if n = 0 then some [.num 0] else if n < Json.B64 then some [.num n] else none :=
+  Json.decimal_roundtrip n
+
+/-- the two terminal variable indices (2^64 − 2, 2^64 − 1: in every export) are read back -/
+example : Json.lex (Json.digits VBOT) = some [.num VBOT] ∧ Json.lex (Json.digits VTOP) = some [.num VTOP] := by
+  rw [decimal_roundtrip, decimal_roundtrip]; simp [VBOT, VTOP, Json.B64]
+
+/-- **string escaping**: every string (any Unicode scalar values: quotes, backslashes, control
+characters, non-ASCII) is read back from its escaped form, whatever follows -/
+theorem string_roundtrip (s x : List Char) :
+    Json.run .idle ('"' :: (Json.escape s ++ '"' :: x)) = (Json.run .idle x).map (Json.Tok.str s :: ·) := by
+  have := Json.run_string s x
+  simpa [Json.tokChars] using this
+
+/-- **text_roundtrip**: `from_str (to_string adf)` is the identity on the persisted state — names,
+root handles, node table; `mapping` and the unique table AS MAPS; skipped fields at their defaults —
+for every order of the two hash maps, every whitespace, every label -/
+theorem text_roundtrip (w : Nat → List Char) (hw : Json.WsOnly w) (a : PAdf) (m : HashMap String Nat)
+    (ml : List (String × Nat)) (cl : List (Node × Nat)) (hml : ml.Perm m.toList)
+    (hcl : cl.Perm a.bdd.st.uniq.toList) (f : Json.FitsA a ml cl) :
+    ∃ a' m', Json.importText (Json.exportText w a ml cl) = some (a', m') ∧
+      a'.names = a.names ∧ a'.ac = a.ac ∧ a'.bdd.st.nodes = a.bdd.st.nodes ∧
+      (∀ n : Node, a'.bdd.st.uniq[n]? = a.bdd.st.uniq[n]?) ∧ (∀ k : String, m'[k]? = m[k]?) ∧
+      a'.bdd.deps = #[] ∧ (∀ k : Nat, a'.bdd.cnt[k]? = none) ∧
+      (∀ k : Nat × Nat × Bool, a'.bdd.st.resC[k]? = none) ∧ (∀ k : Nat × Nat × Nat, a'.bdd.st.iteC[k]? = none) :=
+  Json.text_roundtrip w hw a m ml cl hml hcl f
+
+/-- **import_fix from the text** (`import_fix` with the text in between) -/
+theorem text_import_fix (w : Nat → List Char) (hw : Json.WsOnly w) (a : PAdf) (m : HashMap String Nat)
+    (ml : List (String × Nat)) (cl : List (Node × Nat)) (hml : ml.Perm m.toList)
+    (hcl : cl.Perm a.bdd.st.uniq.toList) (f : Json.FitsA a ml cl) (wf : WF a.bdd.st) :
+    ∃ r, Json.importFixText (Json.exportText w a ml cl) = some r ∧
+      r.names = a.names ∧ r.ac = a.ac ∧ r.bdd.st.nodes = a.bdd.st.nodes ∧
+      (∀ n : Node, r.bdd.st.uniq[n]? = a.bdd.st.uniq[n]?) ∧
+      (∀ k : Nat × Nat × Bool, r.bdd.st.resC[k]? = none) ∧ (∀ k : Nat × Nat × Nat, r.bdd.st.iteC[k]? = none) ∧
+      WF r.bdd.st ∧ DepsOK r.bdd.st r.bdd.deps ∧ CntFull r.bdd.st r.bdd.cnt := by
+  obtain ⟨a', _, _, h, _, h1, h2, h3, h4, h5, h6, hh⟩ := Json.text_import_fix w hw a m ml cl hml hcl f wf
+  exact ⟨_, h, h1, h2, h3, h4, h5, h6, hh.wf, hh.deps, hh.cnt⟩
+
+/-- **future operations, from the text**: every operation sequence run on the object read back
+from the text (+ `fix_import`) issues the handle NUMBERS and builds the node table it does on the
+never-exported original -/
+theorem text_future_ops_same_handles (w : Nat → List Char) (hw : Json.WsOnly w) (a : PAdf) (m : HashMap String Nat)
+    (ml : List (String × Nat)) (cl : List (Node × Nat)) (hml : ml.Perm m.toList)
+    (hcl : cl.Perm a.bdd.st.uniq.toList) (f : Json.FitsA a ml cl) (wf : WF a.bdd.st)
+    (ops : List Op) (hist : List Nat) (hh : ∀ k, k < hist.length → hget hist k < a.bdd.st.nodes.size)
+    (hv : opsValid ops hist.length) :
+    ∃ r, Json.importFixText (Json.exportText w a ml cl) = some r ∧
+      (runOps ops r.bdd.st hist).2 = (runOps ops a.bdd.st hist).2 ∧
+      (runOps ops r.bdd.st hist).1.nodes = (runOps ops a.bdd.st hist).1.nodes := by
+  obtain ⟨r, h, _, _, hn, _, _, _, wr, _, _⟩ := text_import_fix w hw a m ml cl hml hcl f wf
+  exact ⟨r, h, runOps_memo_transparent ops a.bdd.st r.bdd.st hist wf wr hn hh hv⟩
+
+/-- **answers, from the text**: grounded, complete, stable (with and without pre-filter) and the
+counting-guided search, computed on the object read back from the text, give the original's
+answers (`SameAnswers`: same members, none repeated); the nogood-learning search follows in the
+same way from `Json.text_sameFns` and `SameFns.ng` -/
+theorem text_answers_equal (w : Nat → List Char) (hw : Json.WsOnly w) (a : PAdf) (m : HashMap String Nat)
+    (ml : List (String × Nat)) (cl : List (Node × Nat)) (hml : ml.Perm m.toList)
+    (hcl : cl.Perm a.bdd.st.uniq.toList) (f : Json.FitsA a ml cl) (wf : WF a.bdd.st)
+    (hv : ∀ t ∈ a.ac, t < a.bdd.st.nodes.size) :
+    ∃ r, Json.importFixText (Json.exportText w a ml cl) = some r ∧ r.names = a.names ∧ r.ac = a.ac ∧
+      let n := a.ac.length
+      (groundedLoop StoreRA (n + 1) r.bdd.st a.ac).2.map storeIsConst =
+        (groundedLoop StoreRA (n + 1) a.bdd.st a.ac).2.map storeIsConst ∧
+      SameAnswers (dec3 (completeAll r.bdd.st n a.ac).2.2) (dec3 (completeAll a.bdd.st n a.ac).2.2) ∧
+      SameAnswers (dec3 (stableAll r.bdd.st n a.ac).2) (dec3 (stableAll a.bdd.st n a.ac).2) ∧
+      SameAnswers (dec3 (Cli.stablePre r.bdd.st n a.ac).2) (dec3 (Cli.stablePre a.bdd.st n a.ac).2) ∧
+      ∀ useA useA' : Bool,
+        SameAnswers (dec3 (countAll r.bdd.st n a.ac useA').2) (dec3 (countAll a.bdd.st n a.ac useA).2) := by
+  obtain ⟨r, h, hnm, hac, _, hs⟩ := Json.text_sameFns w hw a m ml cl hml hcl f wf hv
+  exact ⟨r, h, hnm, hac, hs.grounded, hs.complete _ rfl, hs.stable _ rfl, hs.stablePre _ rfl,
+    fun u u' => hs.count _ rfl u u'⟩
+
+/-- **CLI `--export PATH` on a free path, then `--import PATH`** (`serde_json::to_writer`, then
+`from_str` + `fix_import`): the file holds the text, and what is read back has the names, the
+root handles and the node table of the exporting run and denotes the same functions — so the
+sections printed by the importing run are those of `text_answers_equal` -/
+theorem cli_export_then_import (fs : String → Option String) (path : String) (free : (fs path).isNone)
+    (a : PAdf) (m : HashMap String Nat) (ml : List (String × Nat)) (cl : List (Node × Nat))
+    (hml : ml.Perm m.toList) (hcl : cl.Perm a.bdd.st.uniq.toList) (f : Json.FitsA a ml cl) (wf : WF a.bdd.st)
+    (hv : ∀ t ∈ a.ac, t < a.bdd.st.nodes.size) :
+    ∃ c r, cliExport fs path (String.ofList (Json.exportText Json.noWs a ml cl)) path = some c ∧
+      Json.importFixText c.toList = some r ∧ r.names = a.names ∧ r.ac = a.ac ∧
+      r.bdd.st.nodes = a.bdd.st.nodes ∧ SameFns a.bdd.st r.bdd.st a.ac := by
+  obtain ⟨r, h, h1, h2, h3, h4⟩ := Json.text_sameFns Json.noWs (fun _ _ h => by simp [Json.noWs] at h)
+    a m ml cl hml hcl f wf hv
+  exact ⟨_, r, (export_never_overwrites fs path _ "").2.1 free, by rw [String.toList_ofList]; exact h, h1, h2, h3, h4⟩
+
+/-- what else the reader takes, as serde's derived visitors do: the members of the outer struct in
+any order, and members with other names skipped (older exports carry `"count_cache":{}`) -/
+theorem reader_tolerates (o o' : List (List Char × Json.J)) (k : List Char) (v : Json.J)
+    (hp : o.Perm o') (h1 : k ≠ Json.kOrdering) (h2 : k ≠ Json.kBdd) (h3 : k ≠ Json.kAc) :
+    Json.dAdf (.obj o) = Json.dAdf (.obj o') ∧ Json.dAdf (.obj ((k, v) :: o)) = Json.dAdf (.obj o) :=
+  ⟨Json.dAdf_perm hp, Json.dAdf_unknown k v o h1 h2 h3⟩
+
+/-! non-vacuity at the text level: one statement whose label contains a quote, a backslash, a
+newline, a control character, DEL, a two-byte and a four-byte character; condition = the statement
+itself (handle 2, an inner node); whitespace between all tokens -/
+
+def nastyLabel : String := String.ofList ['q', '"', '\\', '\n', '\x01', '\x7f', 'é', Char.ofNat 0x1F600]
+def nastyAdf : PAdf := { x0Adf with names := [nastyLabel] }
+def nastyMap : HashMap String Nat := (∅ : HashMap String Nat).insert nastyLabel 0
+def someWs : Nat → List Char := fun i => if i % 2 = 0 then [' ', '\n'] else ['\t', '\r']
+
+theorem someWs_ok : Json.WsOnly someWs := by
+  intro i c hc
+  unfold someWs at hc
+  split at hc <;> simp at hc <;> rcases hc with h | h <;> subst h <;> decide
+
+theorem nasty_fits : Json.FitsA nastyAdf nastyMap.toList nastyAdf.bdd.st.uniq.toList :=
+  Json.fitsA_of_wf nastyAdf nastyMap _ _ x0Adf_ok.1 (by simp [nastyAdf, x0Adf, mkNode, Store.init, Json.B64])
+    x0Adf_ok.2
+    (fun k v h => by
+      simp only [nastyMap, HashMap.getElem?_insert, HashMap.getElem?_empty] at h
+      split at h <;> simp at h
+      subst h; simp [Json.B64])
+    (List.Perm.refl _) (List.Perm.refl _)
+
+example :
+    ∃ r, Json.importFixText (Json.exportText someWs nastyAdf nastyMap.toList nastyAdf.bdd.st.uniq.toList) = some r ∧
+      r.names = [nastyLabel] ∧ r.ac = [2] ∧
+      SameAnswers (dec3 (stableAll r.bdd.st 1 [2]).2) (dec3 (stableAll x0Adf.bdd.st 1 [2]).2) :=
+  let ⟨r, h, hnm, hac, _, _, hs, _⟩ := text_answers_equal someWs someWs_ok nastyAdf nastyMap _ _
+    (List.Perm.refl _) (List.Perm.refl _) nasty_fits x0Adf_ok.1 x0Adf_ok.2
+  ⟨r, h, hnm, hac, hs⟩
+
+/-- the lexer on a concrete text (kernel-evaluated): escapes, whitespace, numbers; and rejections
+(leading zero, a raw control character in a string, a number that is no `usize`) -/
+example :
+    Json.lex ['[', ' ', '"', 'a', '\\', 'n', '\\', 'u', '0', '0', 'e', '9', '\\', '"', '"', ',', '\n', '1', '0', ']'] =
+      some [.lk, .str ['a', '\n', 'é', '"'], .comma, .num 10, .rk] ∧
+    Json.lex ['0', '1'] = none ∧ Json.lex ['"', '\n', '"'] = none ∧
+    Json.lex (Json.digits Json.B64) = none := by
+  refine ⟨by decide, by decide, by decide, ?_⟩
+  rw [decimal_roundtrip]; simp [Json.B64]
+
 end C14
 
 #print axioms C14.future_ops_same_handles
@@ -350,3 +510,11 @@ end C14
 #print axioms C14.count_search_after_roundtrip
 #print axioms C14.nogood_search_after_roundtrip
 #print axioms C14.simplified_roundtrip_decimal
+#print axioms C14.decimal_roundtrip
+#print axioms C14.string_roundtrip
+#print axioms C14.text_roundtrip
+#print axioms C14.text_import_fix
+#print axioms C14.text_future_ops_same_handles
+#print axioms C14.text_answers_equal
+#print axioms C14.cli_export_then_import
+#print axioms C14.reader_tolerates
